@@ -8,6 +8,10 @@ address-space constant, one PRE prefix, one view) is compared across all of its 
   Python emulator     sc62015/pysc62015/emulator.py, constants.py, intrinsics.py (+ pce500 copies)
   Snapshot format     pce500/emulator.py _SNAPSHOT_REGISTER_LAYOUT vs snapshot.rs SNAPSHOT_REGISTER_LAYOUT: position
                       and width of every register inside registers.bin, declared and observed, blobs crossed
+  Private width tables instructions.REG3_20BIT_REGS, RegPair._regpair_is_20bit, eval.rs reg3_bits / regpair_is_20bit:
+                      INC/DEC/ADD/SUB/MV/EX on every register at the boundary of every candidate width, both cores
+  Key-port window     KOL..KIL in IMEMRegisters, memory.rs, keyboard.rs, pce500 keyboard handler / overlay and the
+                      bus of CoreRuntime::step (byte and wide accesses at every start offset, with / without keyboard)
   Rust core           llama/opcodes.rs, llama/state.rs, memory.rs, pce500.rs, lib.rs, snapshot.rs (pub items
                       dumped by rust/harness/src/c17.rs) and, for the private copies in llama/eval.rs and
                       lib.rs, behavioural probes (execute IR / RESET / power_on_reset / an interrupt / one
@@ -32,8 +36,13 @@ RULE = ("finite, complete: one case per duplicated item -- 256 opcode rows (norm
         "register (storage width, effective mask, sub-register layout, r3 / pointer / register-pair selector code), "
         "every register of the serialised register table (position and width inside registers.bin, as declared and "
         "as observed on every pack/unpack route of both languages; each side's blob read back by the other), "
+        "every register x instruction family that keeps a private idea of register widths (INC/DEC r3, ADD/SUB/MV/EX "
+        "r,r': width observed on both cores at the boundary of every candidate width, against the register files; "
+        "the set of 20-bit address registers copy by copy), "
         "every IMEM register named on "
-        "both sides (+ BP/PX/PY as actually used by both cores), interrupt and reset vector (constants + "
+        "both sides (+ BP/PX/PY as actually used by both cores), the key-port window KOL..KIL in every copy "
+        "(constants, predicates, keyboard handlers of both languages, and the CoreRuntime bus observed per direction "
+        "x access width at every start offset, keyboard attached vs detached), interrupt and reset vector (constants + "
         "behavioural probes), address-space constants, the 15 PRE prefixes (table vs both cores), and "
         "disjoint / inside / internal-RAM placement per Binary Ninja view. Non-trivial = an opcode row with "
         ">= 1 operand, or an item with >= 2 independent copies; distinct = item id.")
@@ -1000,6 +1009,192 @@ def check_selector_codes(rust: Any) -> List[Item]:
 
 
 # --------------------------------------------------------------------------------------------------
+# B4. the register-width table as consulted by instruction families (private copies, probed at the boundary)
+# --------------------------------------------------------------------------------------------------
+# Besides the register files (judged in reg-width:*), instruction families keep their own idea of how wide a
+# register is: instructions.REG3_20BIT_REGS (INC/DEC r3 in the lifter), opcodes.RegPair._regpair_is_20bit
+# (register-pair rows), eval.rs reg3_bits / regpair_is_20bit (private).  Two kinds of items:
+#   reg-set:20bit          the *set* of 20-bit address registers according to every declared copy
+#   op-width:<family>:<R>  the width an instruction family really operates at on register R, observed on both
+#                          cores at the boundary of every candidate width (value wrap, Z, C), against the widths
+#                          the register files declare.
+# The families are taken from the opcode table (rows INC/DEC with a Reg3 operand, ADD/SUB with a RegPair operand
+# of R's own size class), never from literal opcode numbers.
+
+_WIDTH_CANDIDATES = (8, 16, 20, 24)
+_SUB_FAMILY = {"A": "BA", "IL": "I"}
+_ZERO_REGS = {"BA": 0, "I": 0, "X": 0, "Y": 0, "U": 0, "S": 0, "F": 0}
+
+
+def _reg_value(res: Dict[str, Any], name: str) -> Optional[int]:
+    if "err" in res or "regs" not in res:
+        return None
+    if name in _SUB_FAMILY:  # low byte of the family register (layout judged in subreg:*)
+        return int(res["regs"][_SUB_FAMILY[name]]) & 0xFF
+    return int(res["regs"][name])
+
+
+def _bits(k: int) -> str:
+    return f"{k} bits"
+
+
+def _first_width(obs: Sequence[Tuple[int, bool]]) -> Any:
+    for k, hit in obs:
+        if hit:
+            return _bits(k)
+    return "never"
+
+
+def _ones_width(v: Optional[int]) -> Any:
+    if v is None:
+        return "error"
+    if v != 0 and (v & (v + 1)) == 0:
+        return _bits(v.bit_length())
+    return "unrecognised result"
+
+
+def check_operation_width(py_table: Dict[int, Any], rust: Any, dump: Dict[str, Any]) -> List[Item]:
+    from sc62015.arch import SC62015
+    from sc62015.pysc62015.instr import opcodes as O
+    from sc62015.pysc62015.instr import instructions as INS
+
+    items: List[Item] = []
+    names = [str(n) for n in O.REG_NAMES]
+    rs_mask = dump["mask_for"]
+
+    # ---- the set of 20-bit address registers, copy by copy (restricted to the r3-addressable registers)
+    def as_set(pred: Callable[[str], bool]) -> List[str]:
+        return sorted(n for n in names if pred(n))
+
+    srcs: List[Tuple[str, Any]] = [
+        ("python Registers (observed mask is 20 bits)", as_set(lambda n: py_reg_mask(n) == 0xFFFFF)),
+        ("rust mask_for (20 bits)", as_set(lambda n: int(rs_mask.get(n, 0)) == 0xFFFFF)),
+        ("arch.SC62015.regs (3-byte registers)", as_set(lambda n: n in SC62015.regs and int(SC62015.regs[n].size) == 3)),
+        ("opcodes.REG_SIZES (3-byte registers)", as_set(lambda n: int(O.REG_SIZES.get(n, 0)) == 3)),
+    ]
+    if hasattr(INS, "REG3_20BIT_REGS"):
+        lst = {str(r) for r in INS.REG3_20BIT_REGS}
+        srcs.append(("instructions.REG3_20BIT_REGS", as_set(lambda n: n in lst)))
+    is20 = getattr(getattr(O, "RegPair", None), "_regpair_is_20bit", None)
+    if callable(is20):
+        try:
+            srcs.append(("opcodes.RegPair._regpair_is_20bit", as_set(lambda n: bool(is20(O.RegisterName(n))))))
+        except Exception:  # noqa: BLE001
+            pass
+    it = Item("reg-set:20bit", True, ["reg:20bit-set"], {"copies": {k: v for k, v in srcs}})
+    group_check(it, "register-20bit-set", srcs, topic="set of 20-bit address registers")
+    items.append(it)
+
+    # ---- families from the opcode table
+    fam_rows: Dict[str, Dict[Any, int]] = {"INC": {}, "DEC": {}, "ADD": {}, "SUB": {}, "MV": {}, "EX": {}}
+    for op in sorted(py_table):
+        p = py_row(py_table[op])
+        nm = short_name(p["name"])
+        if nm not in fam_rows or len(p["operands"]) != 1:
+            continue
+        o = p["operands"][0]
+        if nm in ("INC", "DEC") and o["cls"] == "Reg3":
+            fam_rows[nm].setdefault("r3", op)
+        if nm in ("ADD", "SUB") and o["cls"] == "RegPair":
+            fam_rows[nm].setdefault(o.get("bytes"), op)
+        if nm in ("MV", "EX") and o["cls"] == "RegPair":
+            fam_rows[nm].setdefault("pair", op)
+    # register-pair codes of the MV/EX variant (its own mapping, judged in regpair-index:mv:*)
+    namer = getattr(getattr(O, "RegPair", None), "_regpair_name", None)
+    mv_code: Dict[str, int] = {}
+    if callable(namer):
+        for c_ in reversed(range(8)):
+            try:
+                mv_code[str(namer(c_, True))] = c_
+            except Exception:  # noqa: BLE001
+                pass
+
+    def run_both(code: bytes, regs: Dict[str, int]) -> List[Tuple[str, Dict[str, Any]]]:
+        return [("python core", py_run(code, regs, {})), ("rust core", rs_run(rust, code, regs, {}))]
+
+    for idx, name in enumerate(names):
+        fam = _SUB_FAMILY.get(name, name)
+        size_class = int(O.REG_SIZES.get(name, 0)) if name in O.REG_SIZES else None
+        partners = [m for m in names if m != name and O.REG_SIZES.get(m) == O.REG_SIZES.get(name)
+                    and _SUB_FAMILY.get(m, m) != fam]
+        partner = partners[0] if partners else None
+        declared: List[Tuple[str, Any]] = [(f"python Registers (observed mask) [{name}]", _bits(py_reg_mask(name).bit_length()))]
+        if name in rs_mask:
+            declared.append((f"rust mask_for [{name}]", _bits(int(rs_mask[name]).bit_length())))
+        for family in ("INC", "DEC", "ADD", "SUB", "MV", "EX"):
+            if family in ("INC", "DEC"):
+                op = fam_rows[family].get("r3")
+                tail = bytes([idx])
+                partner_regs: Dict[str, int] = {}
+                mnem = f"{family} r3"
+            elif family in ("MV", "EX"):
+                # every partner of R's own size class: the private tables are consulted for *both* registers
+                op = fam_rows[family].get("pair")
+                mnem = f"{family} r,r'"
+                usable = [m for m in partners if m in mv_code]
+                if op is None or name not in mv_code or not usable:
+                    continue
+                srcs = list(declared)
+                for m in usable:
+                    code = bytes([op, (mv_code[name] << 4) | mv_code[m]])
+                    regs = dict(_ZERO_REGS)
+                    regs[m] = 0xFFFFFF  # the register file of each core masks it
+                    for core, res in run_both(code, regs):
+                        srcs.append((f"{core}, {mnem} [{name} <- {m}] (what arrives from an all-ones {m})",
+                                     _ones_width(_reg_value(res, name))))
+                it = Item(f"op-width:{family}:{name}", True, ["reg:operation-width", "op-width:" + family],
+                          {"family": family, "register": name, "partners": usable, "copies": {k: v for k, v in srcs}}
+                          if (family, name) == ("MV", "U") else None)
+                group_check(it, "operation-width", srcs, topic=f"{mnem} on register {name}")
+                items.append(it)
+                continue
+            else:
+                op = fam_rows[family].get(size_class)
+                if partner is None:
+                    continue
+                tail = bytes([(idx << 4) | names.index(partner)])
+                partner_regs = {_SUB_FAMILY.get(partner, partner): 1}
+                mnem = f"{family} r,r'"
+            if op is None:
+                continue
+            code = bytes([op]) + tail
+            srcs = list(declared)
+            sample: Dict[str, Any] = {"family": family, "register": name, "code": code.hex()}
+            if family in ("INC", "ADD"):
+                # start at 2^k - 1 (the register file of each core masks it): the first k at which the value
+                # comes back as zero / Z is set / (ADD) C is set is the width the family operates at
+                per_core: Dict[str, Dict[str, List[Tuple[int, bool]]]] = {}
+                for k in _WIDTH_CANDIDATES:
+                    regs = dict(_ZERO_REGS)
+                    regs.update(partner_regs)
+                    regs[fam] = ((1 << k) - 1) & (0xFF if name in _SUB_FAMILY else 0xFFFFFFFF)
+                    for core, res in run_both(code, regs):
+                        d = per_core.setdefault(core, {"value": [], "Z": [], "C": []})
+                        v = _reg_value(res, name)
+                        f = int(res["regs"]["F"]) if v is not None else 0
+                        d["value"].append((k, v == 0))
+                        d["Z"].append((k, v is not None and bool(f & 2)))
+                        d["C"].append((k, v is not None and bool(f & 1)))
+                for core in ("python core", "rust core"):
+                    d = per_core[core]
+                    srcs.append((f"{core}, {mnem} [{name}] (result wraps to zero)", _first_width(d["value"])))
+                    srcs.append((f"{core}, {mnem} [{name}] (Z flag set when the result wraps to zero)", _first_width(d["Z"])))
+                    if family == "ADD":
+                        srcs.append((f"{core}, {mnem} [{name}] (C flag set when the result wraps)", _first_width(d["C"])))
+            else:
+                regs = dict(_ZERO_REGS)
+                regs.update(partner_regs)
+                for core, res in run_both(code, regs):
+                    srcs.append((f"{core}, {mnem} [{name}] (all-ones after borrowing from zero)", _ones_width(_reg_value(res, name))))
+            sample["copies"] = {k: v for k, v in srcs}
+            it = Item(f"op-width:{family}:{name}", True, ["reg:operation-width", "op-width:" + family],
+                      sample if (family, name) in (("INC", "S"), ("ADD", "X")) else None)
+            group_check(it, "operation-width", srcs, topic=f"{mnem} on register {name}")
+            items.append(it)
+    return items
+
+
+# --------------------------------------------------------------------------------------------------
 # C. internal-memory registers
 # --------------------------------------------------------------------------------------------------
 
@@ -1075,6 +1270,224 @@ def check_imem(rust: Any, dump: Dict[str, Any]) -> List[Item]:
         group_check(it, "imem-pointer", srcs, topic=f"IMEM pointer {name}")
         items.append(it)
     return items
+
+
+# --------------------------------------------------------------------------------------------------
+# C2. the key-port window (which internal-memory offsets are keyboard ports), copy by copy
+# --------------------------------------------------------------------------------------------------
+# KOL/KOH/KIL are named in IMEMRegisters and memory.rs (judged in imem:*), but the *window* they form is copied
+# again wherever accesses are routed to the keyboard: MemoryImage::is_keyboard_offset / requires_python,
+# KeyboardMatrix::handle_read / handle_write, pce500's keyboard_handler constants and keyboard_io overlay -- and,
+# privately, the bus CoreRuntime::step hands to the executor, once for byte accesses and once more for the test
+# that splits 16/20/24-bit accesses touching the window.  The private copies are observed: every instruction of the
+# table that moves data between a register (or a fixed plain cell) and an internal-memory operand is executed
+# through CoreRuntime::step at *every* start offset, once with the keyboard attached and once on a twin without
+# keyboard (rt.keyboard = None).  An offset belongs to the window of a path (direction x access width) when what is
+# loaded from it / what a store leaves behind depends on the keyboard being there:
+#   load : the byte that arrives differs between the twins (the keyboard's latches are made to differ from the
+#          planted memory image through KeyboardMatrix::handle_write before the image is planted);
+#   store: the memory image afterwards differs between the twins, or a keyboard latch took the byte that the
+#          detached twin left in memory at that offset.
+# For a wide path every offset is covered by several accesses (one per byte position); "at some start offset" and
+# "at every start offset" must both give the window -- the position of the operand must not matter.
+
+_KIO_FIXED = 0x10          # plain internal cell used as the other operand of (m),(n) rows
+_KIO_LATCHES = [[0xF0, 0xA1], [0xF1, 0xA2]]  # handed to KeyboardMatrix::handle_write on whatever it accepts
+_KIO_STORE_VALUE = {"BA": 0x2211, "I": 0x2211, "X": 0x32211, "Y": 0x32211, "U": 0x32211, "S": 0x32211}
+
+
+def _kio_image() -> List[int]:
+    """Planted internal memory: byte o = o ^ 0x5A (non-zero, distinct), pointers and IMR/ISR zero."""
+    img = [(o ^ 0x5A) & 0xFF for o in range(256)]
+    for o in (0xEC, 0xED, 0xEE, 0xFB, 0xFC):
+        img[o] = 0
+    return img
+
+
+def _offs(v: Any) -> List[str]:
+    return [f"{int(o):02X}" for o in sorted(v)]
+
+
+def _kio_forms(py_table: Dict[int, Any]) -> List[Dict[str, Any]]:
+    """Rows of the table that move data between a register / a plain cell and an internal-memory operand."""
+    forms: List[Dict[str, Any]] = []
+    nbytes = {8: 1, 16: 2, 20: 3}
+    for op in sorted(py_table):
+        p = py_row(py_table[op])
+        if short_name(p["name"]) not in ("MV", "MVW", "MVP") or len(p["operands"]) != 2 or p["rev"]:
+            continue
+        a, b = p["operands"]
+
+        def regname(o: Dict[str, Any]) -> Optional[str]:
+            if o["cls"] == "Reg":
+                return _SUB_FAMILY.get(o["reg"], o["reg"])
+            if o["cls"] == "RegIL":
+                return "I"
+            return None
+
+        if regname(a) and b["cls"] == "IMem" and b["bits"] in nbytes:
+            forms.append({"op": op, "dir": "load", "w": nbytes[b["bits"]], "reg": regname(a), "text": f"{short_name(p['name'])} r,(n) [{op:02X}]"})
+        elif a["cls"] == "IMem" and regname(b) and a["bits"] in nbytes:
+            forms.append({"op": op, "dir": "store", "w": nbytes[a["bits"]], "reg": regname(b), "text": f"{short_name(p['name'])} (n),r [{op:02X}]"})
+        elif a["cls"] == "IMem" and b["cls"] == "IMem" and a["bits"] == b["bits"] and a["bits"] in nbytes:
+            forms.append({"op": op, "dir": "load", "w": nbytes[a["bits"]], "reg": None, "text": f"{short_name(p['name'])} (m),(n) [{op:02X}] source"})
+            forms.append({"op": op, "dir": "store", "w": nbytes[a["bits"]], "reg": None, "text": f"{short_name(p['name'])} (m),(n) [{op:02X}] destination"})
+    return forms
+
+
+def _pce500_key_port_copies() -> List[Tuple[str, Any]]:
+    """pce500's copies: keyboard_handler constants, the registers its handler accepts, the keyboard_io overlay."""
+    out: List[Tuple[str, Any]] = []
+    try:
+        import pce500.keyboard_handler as KH
+        from sc62015.pysc62015 import constants as K
+
+        out.append(("pce500.keyboard_handler.KOL/KOH/KIL", _offs({int(KH.KOL), int(KH.KOH), int(KH.KIL)})))
+    except Exception:  # noqa: BLE001
+        return out
+    try:
+        emu = _pce500_emulator(_vector_page())
+    except _Skip:
+        return out
+    except Exception:  # noqa: BLE001
+        return out
+    try:
+        ov = [o for o in emu.memory.overlays if getattr(o, "name", None) == "keyboard_io"]
+        if len(ov) == 1:
+            base = int(K.INTERNAL_MEMORY_START)
+            out.append(("pce500 emulator, keyboard_io overlay", _offs(range(int(ov[0].start) - base, int(ov[0].end) - base + 1))))
+    except Exception:  # noqa: BLE001
+        pass
+    try:
+        kb = emu.keyboard
+        rd = [o for o in range(256) if kb.handle_register_read(o) is not None]
+        wr = [o for o in range(256) if kb.handle_register_write(o, 0x11)]
+        out.append(("pce500 KeyboardHandler.handle_register_read (registers served)", _offs(rd)))
+        out.append(("pce500 KeyboardHandler.handle_register_write (registers served)", _offs(wr)))
+    except Exception:  # noqa: BLE001
+        pass
+    return out
+
+
+def check_key_port_window(py_table: Dict[int, Any], rust: Any, dump: Dict[str, Any]) -> List[Item]:
+    from sc62015.pysc62015.instr.opcodes import IMEMRegisters
+
+    srcs: List[Tuple[str, Any]] = []
+    ports = ("KOL", "KOH", "KIL")
+    if all(n in IMEMRegisters.__members__ for n in ports):
+        srcs.append(("opcodes.IMEMRegisters.KOL/KOH/KIL", _offs({int(IMEMRegisters[n].value) for n in ports})))
+    c = dump["consts"]
+    if all(f"memory.IMEM_{n}_OFFSET" in c for n in ports):
+        srcs.append(("rust memory::IMEM_KOL/KOH/KIL_OFFSET", _offs({int(c[f"memory.IMEM_{n}_OFFSET"]) for n in ports})))
+    resp = rust.call({"cmd": "c17.kio_tables"})
+    if not resp.get("ok"):
+        raise HarnessError(f"c17.kio_tables failed: {resp}")
+    srcs.append(("rust MemoryImage::is_keyboard_offset", _offs(resp["is_keyboard_offset"])))
+    srcs.append(("rust MemoryImage::requires_python (offsets that depend on set_keyboard_bridge)", _offs(resp["requires_python_bridge_dependent"])))
+    srcs.append(("rust KeyboardMatrix::handle_read (offsets served)", _offs(resp["handle_read"])))
+    srcs.append(("rust KeyboardMatrix::handle_write (offsets served)", _offs(resp["handle_write"])))
+    srcs += _pce500_key_port_copies()
+
+    # ---- the runtime bus, observed
+    forms = _kio_forms(py_table)
+    image = _kio_image()
+    runs: List[Dict[str, Any]] = []
+    index: List[Tuple[int, int]] = []  # (form index, start offset) per pair of runs
+    for fi, f in enumerate(forms):
+        for s in range(0, 0x100 - f["w"] + 1):
+            if f["reg"] is not None:
+                code = [f["op"], s]
+            elif f["dir"] == "load":
+                code = [f["op"], _KIO_FIXED, s]
+            else:
+                code = [f["op"], s, _KIO_FIXED]
+            regs = {"S": 0x20000, "U": 0x28000}
+            if f["dir"] == "store" and f["reg"] is not None:
+                regs[f["reg"]] = _KIO_STORE_VALUE[f["reg"]]
+            for attached in (True, False):
+                runs.append({"code": code, "regs": regs, "keyboard": attached})
+            index.append((fi, s))
+    resp = rust.call({"cmd": "c17.runtime_probe", "imem": image, "kb_writes": _KIO_LATCHES, "runs": runs})
+    if not resp.get("ok") or len(resp.get("runs", [])) != len(runs):
+        raise HarnessError(f"c17.runtime_probe failed: {str(resp)[:300]}")
+    res = resp["runs"]
+
+    # path -> offset -> [served?, ...] over all covering accesses; notes per path for the detail text
+    paths: Dict[Tuple[str, int], Dict[int, List[bool]]] = {}
+    notes: Dict[Tuple[str, int], List[Tuple[int, bool, str]]] = {}  # (offset, served?, what was seen)
+    errors: Dict[Tuple[str, int], str] = {}
+    for pi, (fi, s) in enumerate(index):
+        f = forms[fi]
+        att, det = res[2 * pi], res[2 * pi + 1]
+        key = (f["dir"], f["w"])
+        cover = paths.setdefault(key, {})
+        if att.get("err") or det.get("err") or att.get("kb_after") is None:
+            errors.setdefault(key, f"{f['text']} at start offset {s:02X}: {att.get('err') or det.get('err') or 'keyboard missing'}")
+            continue
+        if f["dir"] == "load":
+            if f["reg"] is not None:
+                a_bytes = [(int(att["regs"][f["reg"]]) >> (8 * j)) & 0xFF for j in range(f["w"])]
+                d_bytes = [(int(det["regs"][f["reg"]]) >> (8 * j)) & 0xFF for j in range(f["w"])]
+            else:
+                a_bytes = [int(att["imem"][_KIO_FIXED + j]) for j in range(f["w"])]
+                d_bytes = [int(det["imem"][_KIO_FIXED + j]) for j in range(f["w"])]
+            for j in range(f["w"]):
+                hit = a_bytes[j] != d_bytes[j]
+                cover.setdefault(s + j, []).append(hit)
+                notes.setdefault(key, []).append((s + j, hit, f"{f['text']} at start {s:02X}, byte {j}: {a_bytes[j]:02X} with / {d_bytes[j]:02X} without keyboard"))
+        else:
+            before = [int(x) for x in att["kb_before"]]
+            after = [int(x) for x in att["kb_after"]]
+            diff = {o for o in range(256) if int(att["imem"][o]) != int(det["imem"][o])}
+            for j in range(f["w"]):
+                o = s + j
+                landed = int(det["imem"][o])
+                latched = any(after[i] == landed and before[i] != landed for i in range(len(after)))
+                hit = (o in diff) or latched
+                cover.setdefault(o, []).append(hit)
+                notes.setdefault(key, []).append((o, hit, f"{f['text']} at start {s:02X}, byte {j}: memory {int(att['imem'][o]):02X} with / {landed:02X} without "
+                                                          f"keyboard{', latched by the keyboard' if latched else ''}"))
+            for o in sorted(diff - set(range(s, s + f["w"]))):  # outside the operand: still keyboard-dependent
+                cover.setdefault(o, []).append(True)
+                notes.setdefault(key, []).append((o, True, f"{f['text']} at start {s:02X}: memory outside the operand differs"))
+
+    bits = {1: "8-bit", 2: "16-bit", 3: "20/24-bit"}
+    observed: List[Tuple[str, Any, Tuple[str, int]]] = []
+    for key in sorted(paths):
+        d, w = key
+        label = f"rust CoreRuntime bus, {bits[w]} {d}s"
+        if key in errors:
+            observed.append((f"{label}", f"error ({errors[key]})", key))
+            continue
+        cover = paths[key]
+        some = [o for o, hits in cover.items() if any(hits)]
+        every = [o for o, hits in cover.items() if hits and all(hits)]
+        if w == 1:
+            observed.append((f"{label} (offsets that depend on the keyboard)", _offs(some), key))
+            if some != every:
+                observed.append((f"{label} (offsets that depend on the keyboard in every instruction form)", _offs(every), key))
+        else:
+            observed.append((f"{label} (offsets that depend on the keyboard at some start offset)", _offs(some), key))
+            observed.append((f"{label} (offsets that depend on the keyboard at every start offset)", _offs(every), key))
+    all_srcs = srcs + [(lb, v) for lb, v, _ in observed]
+    it = Item("imem-window:keyboard", True, ["imem:key-port-window"],
+              {"forms": [f["text"] for f in forms], "runs": len(runs), "copies": {k: v for k, v in all_srcs}})
+    before_n = len(it.violations)
+    group_check(it, "key-port-window", all_srcs, topic="key-port window")
+    # append the witnessing accesses to the detail of the verdicts about observed paths
+    by_label = {lb: (key, val) for lb, val, key in observed}
+    maj = majority(all_srcs)
+    for v in it.violations[before_n:]:
+        key, val = by_label.get(v.where, (None, None))
+        if key is None or not isinstance(val, list) or not isinstance(maj, list):
+            continue
+        extra, missing = set(val) - set(maj), set(maj) - set(val)
+        wit = [f"offset {o:02X} {'depends on' if hit else 'does not depend on'} the keyboard in {txt}"
+               for o, hit, txt in notes.get(key, []) if (f"{o:02X}" in extra and hit) or (f"{o:02X}" in missing and not hit)]
+        if wit:
+            v.detail = "witnesses: " + "; ".join(wit[:8]) + " || " + (v.detail or "")
+    it.labels += [f"kio-path:{bits[w]}-{d}" for d, w in sorted(paths)]
+    return [it]
 
 
 # --------------------------------------------------------------------------------------------------
@@ -1453,7 +1866,9 @@ def collect_items() -> List[Item]:
     items += check_registers(rust, dump)
     items += check_snapshot_layout(rust, dump)
     items += check_selector_codes(rust)
+    items += check_operation_width(dict(OPCODES), rust, dump)
     items += check_imem(rust, dump)
+    items += check_key_port_window(dict(OPCODES), rust, dump)
     items += check_vectors(rust, dump)
     items += check_address_space(rust, dump)
     items += check_pre_table(rust)
@@ -1489,6 +1904,16 @@ ASSUMPTIONS = [
     "register that changes names the destination, the low 16 bits (MV) / low-byte increment (ADD) name the source; "
     "A vs BA and IL vs I are not distinguished (a width question, judged in the opcode rows); the [r3] pointer "
     "selector only for the documented pointer registers X,Y,U,S (codes 4-7)",
+    "operation width of an instruction family on a register: the first of 8/16/20/24 bits at which INC / ADD #1 "
+    "brings the value back to zero, sets Z, (ADD) sets C; the all-ones pattern DEC / SUB #1 leave when starting "
+    "from zero; what MV / EX deliver from an all-ones partner.  Only partners of the register's own size class "
+    "are used (the cores differ on out-of-size register-pair codes: C06's subject); A and IL are read as the low "
+    "byte of BA / I (layout judged in subreg:*)",
+    "key-port window of the CoreRuntime bus: an offset belongs to it when the byte loaded from it, or what a store "
+    "leaves in memory / in a keyboard latch, depends on the keyboard being attached (twin run with rt.keyboard = "
+    "None); the keyboard's latches are set through KeyboardMatrix::handle_write to values that differ from the "
+    "planted memory image; instruction forms are the MV/MVW/MVP rows of the table with an internal-memory operand, "
+    "BP = PX = PY = 0.  Nothing is asserted about *what* the keyboard answers (C14), only about *where* it is asked",
 ]
 
 
@@ -1508,7 +1933,8 @@ def run(ctx: Ctx) -> Report:
 _SAMPLE_IDS = ("opcode:42", "opcode:E3", "opcode:56", "len:F0", "reg-width:X", "reg-width:PC", "subreg:B",
                "reg-index:1", "imem:BP", "imem-use:PY", "vector:interrupt", "vector:reset",
                "const:INTERNAL_MEMORY_START", "pre:37", "view:SC62015FullView:disjoint", "opcode:D6",
-               "snap-slot:U", "snap-cross:py-to-rs", "regpair-index:mv:6", "ptr-index:7")
+               "snap-slot:U", "snap-cross:py-to-rs", "regpair-index:mv:6", "ptr-index:7",
+               "reg-set:20bit", "op-width:INC:S", "op-width:ADD:X", "op-width:MV:U", "imem-window:keyboard")
 
 
 def _want_sample(rep: Report, it: Item) -> bool:
